@@ -12,6 +12,19 @@ CHECKS = {
         ref="5/C15"),
 }
 
+CHECKS.update({
+    "C10": dict(
+        technique="TLA+ spec of the connection life-cycle (spec/ip/IpConn.tla) model-checked by TLC; TLC -simulate behaviours replayed as stimuli into the real IpPairing on a virtual-time asyncio loop; recorded socket/API traces validated against IpConn_Trace (real-time, back-off table exact)",
+        text="TLC checks SingleConnector/SingleAttempt/HostsNeverEmpty/ExclusionEnds/BackoffBeforeRetry/NextAddressOnce/NotStuck/NoAttemptAfterShutdown/NoSpontaneousAttemptAfterClose/WaiterAttached/ShieldRespected exhaustively on IpConn for small constants (every interleaving of connector steps, transport callbacks, timers, accessory replies, FIN/reset, API callers). Every execution of the real code (TLC behaviours replayed, seeded random stimulus sequences, hours-long failing runs) is recorded at the socket boundary and the public API and must be a behaviour of the timed specification: attempt times must equal the back-off table min(60,0.5*1.5^k) exactly, waiters return within 10 s, no attempt after shutdown, and after an honest tail the pairing must be connected (safety form of 'keeps trying').",
+        note="Trusted: TLC, the virtual-time loop (harness/vloop.py), the socketpair network and reference accessory (harness/simnet.py, harness/refacc). Readings of ambiguous clauses: DESIGN.md section 4.2.",
+        ref="5/C10"),
+    "C11": dict(
+        technique="TLA+ spec of the connection life-cycle (spec/ip/IpConn.tla) model-checked by TLC; recorded executions of the real code validated against IpConn_Trace with the set of sockets open on the accessory side compared after every settled step",
+        text="TLC checks AtMostOneOpen/AtMostOneHeld/HeldIsCurrent/AfterCloseNothingHeld/StaleLossHarmless exhaustively on IpConn for small constants, with every way a secure-session setup can end, FIN and reset of old and new sockets in every order, and close()/shutdown() from every state. Trace validation binds it to the code: after every settled step the accessory-side set of open sockets must equal the specification's, every EOF seen by the accessory must be explained by a controller close, close()/shutdown() must return normally.",
+        note="Trusted: TLC, harness/vloop.py, harness/simnet.py, harness/refacc. Histories where a trigger races with an unfinished close() are accepted either way (DESIGN.md 4.2).",
+        ref="5/C11"),
+})
+
 NOT_APPLICABLE = {
     "C02": "Byte-for-byte numeric equality of SRP-6a over a 3072-bit group with SHA-512: no state, schedule or history to model, TLC integers are 32-bit; a TLA+ transcription over a toy group would say nothing about the hard-coded constants. See DESIGN.md section 5/C02.",
 }
